@@ -204,13 +204,13 @@ def _steps(env, k, last, core, vec_targets):
     return out
 
 
-def _histories(n, core, vec_targets):
+def _histories(n, core, vec_targets, reads=True):
     """All histories of exactly n steps (plain reads only in last position: they are pure observers)."""
     base = {'v0': 'V', 'v1': 'V', 'v2': 'V', 't0': 'T'}
 
     def rec(env, k, prefix):
         last = (k == n)
-        for st in _steps(env, k, last, core, vec_targets):
+        for st in _steps(env, k, last and reads, core, vec_targets):
             if last:
                 yield prefix + [st]
             else:
@@ -224,14 +224,14 @@ def _histories(n, core, vec_targets):
 
 def cases(tier, seed):
     if tier == 'quick':
-        plan = [(1, False, None, list(SETUPS)),
-                (2, False, ('v0', 'v2'), ['rshift', 'ctor-list', 'dict-of-lists'])]
+        plan = [(1, False, None, list(SETUPS), True),
+                (2, False, ('v0', 'v2'), ['rshift', 'ctor-list'], False)]
     else:
-        plan = [(1, False, None, list(SETUPS)),
-                (2, False, None, list(SETUPS)),
-                (3, True, ('v0', 'v2'), ['rshift', 'ctor-list'])]
-    for n, core, vt, setups in plan:
-        for h in _histories(n, core, vt):
+        plan = [(1, False, None, list(SETUPS), True),
+                (2, False, None, list(SETUPS), True),
+                (3, True, ('v0', 'v2'), ['rshift', 'ctor-list'], False)]
+    for n, core, vt, setups, reads in plan:
+        for h in _histories(n, core, vt, reads):
             for s in setups:
                 yield {'setup': s, 'hist': h}
 
@@ -252,19 +252,35 @@ def _compiled(src):
 _G = dict(NS)
 
 
+def _safe_repr(e):
+    if isinstance(e, Vector):
+        return obs(e)
+    try:
+        return repr(e)
+    except Exception as ex:
+        return f'<{type(e).__name__}: repr raised {type(ex).__name__}>'
+
+
 def obs(x):
     """Observable state of a live object: contents, names, dtypes; tables also names/len/rows."""
     if isinstance(x, Table):
         try:
-            names = tuple(repr(n) for n in x.column_names())
+            names = tuple(x.column_names())
         except Exception as e:
             names = ('ERR', type(e).__name__)
         try:
-            rows = tuple(tuple(repr(e) for e in r) for r in x)
+            rows = tuple([tuple(map(repr, r)) for r in x])
         except Exception as e:
             rows = ('ERR', type(e).__name__)
-        return (view(x), names, rows)
-    return view(x)
+        return (tuple([obs(c) for c in x.cols()]), len(x), names, rows)
+    if isinstance(x, Vector):
+        dt = x.schema()
+        try:
+            vals = tuple(map(repr, x._underlying))
+        except Exception:
+            vals = tuple([_safe_repr(e) for e in x._underlying])
+        return (vals, x._name, None if dt is None else (dt.kind, dt.nullable))
+    return ('S', _safe_repr(x))
 
 
 def _path(graph, a, b):
@@ -433,7 +449,7 @@ if __name__ == '__main__':
               'live column handle/attribute and indexed-attribute assignment/rename, incl. refused variants), pure reads in '
               'last position; after every step every live object is compared with its pre-step snapshot under the frame rule '
               'of the statement. distinct = distinct (setup, op-name sequence) containing a write',
-         bound=lambda tier: ({'max_steps': 2, 'len1_setups': 5, 'len2_setups': 2, 'len2_vector_targets': 'v0,v2+derived'}
+         bound=lambda tier: ({'max_steps': 2, 'len1_setups': 5, 'len2_setups': 2, 'len2_vector_targets': 'v0,v2+derived', 'len2_reads': False}
                              if tier == 'quick' else
                              {'max_steps': 3, 'len1_setups': 5, 'len2_setups': 5, 'len3_setups': 2,
                               'len3_alphabet': 'core subset (28 ops)'}),
